@@ -25,7 +25,7 @@ func (m *SortedKeyMap[T]) Set(key string, value T) {
 	_, ok := m.values[key]
 	if !ok {
 		m.keys = append(m.keys, key)
-		sort.Strings(m.keys)
+		sort.Slice(m.keys, func(i, j int) bool { return keyLess(m.keys[i], m.keys[j]) })
 	}
 
 	m.values[key] = value
@@ -65,6 +65,17 @@ func (m *SortedKeyMap[T]) Keys(count int) []string {
 	}
 
 	return keys
+}
+
+// keyLess orders keys by length first and lexicographically second. Keys are
+// decimal block numbers, so this is their numeric order ("99" < "100"), which
+// plain string comparison is not.
+func keyLess(a, b string) bool {
+	if len(a) != len(b) {
+		return len(a) < len(b)
+	}
+
+	return a < b
 }
 
 func getZero[T any]() T {
